@@ -420,9 +420,11 @@ func (i *interpreter) symIndexAddr(base []value, idx *Sym) value {
 	if n == 1 {
 		return &base[0]
 	}
-	if scalarElems(base) {
+	if scalarElems(base) && n <= 64 {
 		return symPtr{base: base, idx: t}
 	}
+	// large tables (utf8.first, unicode properties, ...): fork over the feasible
+	// index values instead of building a huge ite chain
 	k := i.concretize(t)
 	return &base[k]
 }
